@@ -376,6 +376,272 @@ def expand_module(tree: ast.Module, modname: str) -> Tuple[int, List[str]]:
         return 0, []  # no vocabulary available: expanding everything would change what the rules were written against
     # a module the rules never saw has no anchors: all of its helpers may be expanded
     known = kf.get(modname, set())
+    te = TableEvaluator(tree)
+    nt = te.run()
     ex = Expander(tree, modname, known)
     n = ex.run()
-    return n, ex.sites
+    return n + nt, te.sites + ex.sites
+
+
+# ======================================================================================================================
+# Partial evaluation of table-driven code (run before the helper expansion)
+#
+#   for section, handler in (("constants", self.handle_expression), ...):  BODY      ->  BODY[...], BODY[...], ...
+#   if key in self._TABLE:  ... getattr(self, self._TABLE[key])(...) ...              ->  if key == K1: ... self.h1(...) ...
+#   name = self._TABLE.get(key); if name is not None: getattr(self, name)(...)        ->  elif key == K2: ... (one case per entry)
+#
+# Only tables that hold references to callables (bound methods, or the names of methods of the class) are expanded: these
+# are dispatch tables, i.e. control flow written as data.  The rewrite is exact: a constant mapping is replaced by the
+# case distinction it denotes.
+# ======================================================================================================================
+class _Subst(ast.NodeTransformer):
+    def __init__(self, names: Dict[str, ast.expr] = None, exprs: Dict[str, ast.expr] = None):
+        self.names = names or {}
+        self.exprs = exprs or {}  # unparsed text -> replacement
+
+    def visit(self, node):
+        if isinstance(node, ast.expr) and self.exprs:
+            t = ast.unparse(node)
+            if t in self.exprs:
+                return ast.copy_location(copy.deepcopy(self.exprs[t]), node)
+        return super().visit(node)
+
+    def visit_Name(self, n):
+        if isinstance(n.ctx, ast.Load) and n.id in self.names:
+            return ast.copy_location(copy.deepcopy(self.names[n.id]), n)
+        return n
+
+
+def _fold(stmts: List[ast.stmt]) -> List[ast.stmt]:
+    """getattr(self, "name") -> self.name; single-assignment pure locals propagated; constant tests removed."""
+
+    class G(ast.NodeTransformer):
+        def visit_Call(self, n):
+            self.generic_visit(n)
+            if isinstance(n.func, ast.Name) and n.func.id == "getattr" and len(n.args) == 2 and isinstance(n.args[1], ast.Constant) and isinstance(n.args[1].value, str) and n.args[1].value.isidentifier():
+                return ast.copy_location(ast.Attribute(value=n.args[0], attr=n.args[1].value, ctx=ast.Load()), n)
+            return n
+
+        def visit_Compare(self, n):
+            self.generic_visit(n)
+            if len(n.ops) == 1 and isinstance(n.left, ast.Constant) and isinstance(n.comparators[0], ast.Constant) and n.comparators[0].value is None and isinstance(n.ops[0], (ast.Is, ast.IsNot)):
+                v = (n.left.value is None) if isinstance(n.ops[0], ast.Is) else (n.left.value is not None)
+                return ast.copy_location(ast.Constant(value=v), n)
+            return n
+
+    stmts = [G().visit(s) for s in stmts]
+    # propagate `x = <pure>` when x is assigned exactly once in this block (at its top level) and never stored elsewhere
+    changed = True
+    while changed:
+        changed = False
+        for i, s in enumerate(stmts):
+            if isinstance(s, ast.Assign) and len(s.targets) == 1 and isinstance(s.targets[0], ast.Name) and (_pure(s.value)):
+                nm = s.targets[0].id
+                stores = sum(1 for t in stmts for n in ast.walk(t) if isinstance(n, ast.Name) and n.id == nm and isinstance(n.ctx, (ast.Store, ast.Del)))
+                if stores != 1:
+                    continue
+                # the value's own names must not be reassigned later in the block
+                vnames = {n.id for n in ast.walk(s.value) if isinstance(n, ast.Name)}
+                if any(isinstance(n, ast.Name) and n.id in vnames and isinstance(n.ctx, ast.Store) for t in stmts[i + 1:] for n in ast.walk(t)):
+                    continue
+                sub = _Subst(names={nm: s.value})
+                stmts = stmts[:i] + [G().visit(sub.visit(t)) for t in stmts[i + 1:]]
+                changed = True
+                break
+    out: List[ast.stmt] = []
+    for s in stmts:
+        if isinstance(s, ast.If) and isinstance(s.test, ast.Constant):
+            out.extend(_fold(s.body if s.test.value else s.orelse))
+        elif isinstance(s, ast.If) and isinstance(s.test, ast.UnaryOp) and isinstance(s.test.op, ast.Not) and isinstance(s.test.operand, ast.Constant):
+            out.extend(_fold(s.orelse if s.test.operand.value else s.body))
+        else:
+            out.append(s)
+        if out and isinstance(out[-1], (ast.Return, ast.Raise, ast.Continue, ast.Break)):
+            break  # what follows in this block is unreachable
+    return out
+
+
+def prune_dead_helpers(trees: Dict[str, ast.Module]) -> List[str]:
+    """Remove definitions of functions outside the rules' vocabulary that nothing refers to any more (every call was
+    expanded in place).  A definition nobody refers to cannot run, so removing it changes nothing; it keeps rules that
+    range over *all* functions from judging the same statements twice (inside the caller and stand-alone)."""
+    kf = known_functions()
+    if not kf:
+        return []
+    refs: Dict[str, int] = {}
+    for t in trees.values():
+        for n in ast.walk(t):
+            if isinstance(n, ast.Attribute):
+                refs[n.attr] = refs.get(n.attr, 0) + 1
+            elif isinstance(n, ast.Name):
+                refs[n.id] = refs.get(n.id, 0) + 1
+            elif isinstance(n, ast.Constant) and isinstance(n.value, str) and n.value.isidentifier():
+                refs[n.value] = refs.get(n.value, 0) + 1  # getattr(self, "name") / dispatch tables of names
+    removed = []
+    for mod, t in trees.items():
+        known = kf.get(mod, set())
+
+        def prune(body, prefix):
+            keep = []
+            for st in body:
+                if isinstance(st, ast.FunctionDef) and f"{prefix}{st.name}" not in known and refs.get(st.name, 0) == 0 and not (st.name.startswith("__") and st.name.endswith("__")) \
+                        and not st.decorator_list:
+                    removed.append(f"{mod}::{prefix}{st.name}")
+                    continue
+                if isinstance(st, ast.ClassDef):
+                    st.body = prune(st.body, f"{st.name}.") or [ast.Pass()]
+                keep.append(st)
+            return keep
+
+        t.body = prune(t.body, "")
+    return removed
+
+
+class TableEvaluator:
+    def __init__(self, tree: ast.Module):
+        self.tree = tree
+        self.count = 0
+        self.sites: List[str] = []
+
+    # ---- tables -----------------------------------------------------------------------------------------------
+    @staticmethod
+    def _class_tables(cls: ast.ClassDef) -> Dict[str, ast.Dict]:
+        methods = {m.name for m in cls.body if isinstance(m, ast.FunctionDef)}
+        out = {}
+        for st in cls.body:
+            tgt, val = None, None
+            if isinstance(st, ast.Assign) and len(st.targets) == 1 and isinstance(st.targets[0], ast.Name):
+                tgt, val = st.targets[0].id, st.value
+            elif isinstance(st, ast.AnnAssign) and isinstance(st.target, ast.Name) and st.value is not None:
+                tgt, val = st.target.id, st.value
+            if tgt and isinstance(val, ast.Dict) and val.keys and all(k is not None and _pure(k) for k in val.keys):
+                if all(isinstance(v, ast.Constant) and isinstance(v.value, str) and v.value in methods for v in val.values):
+                    out[tgt] = val
+        return out
+
+    def _table_ref(self, e, tables, cname) -> Optional[str]:
+        if isinstance(e, ast.Attribute) and isinstance(e.value, ast.Name) and e.value.id in ("self", "cls", cname) and e.attr in tables:
+            return e.attr
+        return None
+
+    # ---- rewriting a block ----------------------------------------------------------------------------------------
+    def _cases(self, key: ast.expr, table: ast.Dict, make_body, default_body) -> List[ast.stmt]:
+        chain: Optional[ast.If] = None
+        head: Optional[ast.If] = None
+        for k, v in zip(table.keys, table.values):
+            node = ast.If(test=ast.Compare(left=copy.deepcopy(key), ops=[ast.Eq()], comparators=[copy.deepcopy(k)]), body=make_body(v) or [ast.Pass()], orelse=[])
+            if chain is None:
+                head = chain = node
+            else:
+                chain.orelse = [node]
+                chain = node
+        chain.orelse = default_body
+        return [head]
+
+    def block(self, stmts: List[ast.stmt], tables, cname, methods) -> List[ast.stmt]:
+        out: List[ast.stmt] = []
+        i = 0
+        while i < len(stmts):
+            s = stmts[i]
+            # ---- unrolling of a loop over a literal table of (constant, callable) rows
+            if isinstance(s, ast.For) and not s.orelse:
+                rows = self._rows(s, stmts[:i], methods)
+                if rows is not None:
+                    tg = s.target.elts if isinstance(s.target, ast.Tuple) else [s.target]
+                    for row in rows:
+                        m = {t.id: e for t, e in zip(tg, (row.elts if isinstance(s.target, ast.Tuple) else [row]))}
+                        out.extend(self.block([_Subst(names=m).visit(copy.deepcopy(b)) for b in s.body], tables, cname, methods))
+                    self.count += 1
+                    self.sites.append(f"unrolled table loop at line {s.lineno}")
+                    i += 1
+                    continue
+            # ---- `if key in self.TABLE:` (possibly an elif link: handled when the chain is visited through orelse)
+            if isinstance(s, ast.If) and isinstance(s.test, ast.Compare) and len(s.test.ops) == 1 and isinstance(s.test.ops[0], ast.In) and _pure(s.test.left):
+                tn = self._table_ref(s.test.comparators[0], tables, cname)
+                if tn:
+                    key, table = s.test.left, tables[tn]
+                    ref = ast.unparse(s.test.comparators[0])
+
+                    def mk(v, key=key, ref=ref, body=s.body):
+                        sub = _Subst(exprs={f"{ref}[{ast.unparse(key)}]": v, f"{ref}.get({ast.unparse(key)})": v})
+                        return self.block(_fold([sub.visit(copy.deepcopy(b)) for b in body]), tables, cname, methods)
+
+                    out.extend(self._cases(key, table, mk, self.block(s.orelse, tables, cname, methods)))
+                    self.count += 1
+                    self.sites.append(f"dispatch table {tn} expanded at line {s.lineno}")
+                    i += 1
+                    continue
+            # ---- `name = self.TABLE.get(key)` followed by the rest of the block
+            if isinstance(s, ast.Assign) and len(s.targets) == 1 and isinstance(s.targets[0], ast.Name) and isinstance(s.value, ast.Call) and isinstance(s.value.func, ast.Attribute) \
+                    and s.value.func.attr == "get" and len(s.value.args) == 1 and _pure(s.value.args[0]) and not s.value.keywords:
+                tn = self._table_ref(s.value.func.value, tables, cname)
+                rest = stmts[i + 1:]
+                if tn and sum(1 for r in rest for _ in ast.walk(r)) < 1500:
+                    key, table, nm = s.value.args[0], tables[tn], s.targets[0].id
+
+                    def mk2(v, nm=nm, rest=rest):
+                        body = [ast.copy_location(ast.Assign(targets=[ast.Name(id=nm, ctx=ast.Store())], value=copy.deepcopy(v)), s)] + [copy.deepcopy(r) for r in rest]
+                        for b in body:
+                            ast.fix_missing_locations(b)
+                        return self.block(_fold(body), tables, cname, methods)
+
+                    out.extend(self._cases(key, table, mk2, mk2(ast.Constant(value=None))))
+                    self.count += 1
+                    self.sites.append(f"dispatch table {tn} (.get) expanded at line {s.lineno}")
+                    return out  # the rest of the block now lives inside the cases
+            # ---- recurse
+            if not isinstance(s, (ast.FunctionDef, ast.AsyncFunctionDef, ast.ClassDef)):
+                for fld in ("body", "orelse", "finalbody"):
+                    v = getattr(s, fld, None)
+                    if isinstance(v, list) and v and isinstance(v[0], ast.stmt):
+                        setattr(s, fld, self.block(v, tables, cname, methods))
+                if isinstance(s, ast.Try):
+                    for h in s.handlers:
+                        h.body = self.block(h.body, tables, cname, methods)
+            out.append(s)
+            i += 1
+        return out
+
+    def _rows(self, loop: ast.For, before: List[ast.stmt], methods) -> Optional[List[ast.expr]]:
+        it = loop.iter
+        if isinstance(it, ast.Name):
+            defs = [b for b in before if isinstance(b, ast.Assign) and len(b.targets) == 1 and isinstance(b.targets[0], ast.Name) and b.targets[0].id == it.id]
+            if len(defs) != 1:
+                return None
+            it = defs[0].value
+        if not isinstance(it, (ast.Tuple, ast.List)) or not it.elts:
+            return None
+        arity = len(loop.target.elts) if isinstance(loop.target, ast.Tuple) else 1
+        if isinstance(loop.target, ast.Tuple):
+            if not all(isinstance(t, ast.Name) for t in loop.target.elts):
+                return None
+            if not all(isinstance(r, ast.Tuple) and len(r.elts) == arity and all(_pure(e) for e in r.elts) for r in it.elts):
+                return None
+            cells = [e for r in it.elts for e in r.elts]
+        else:
+            if not isinstance(loop.target, ast.Name) or not all(_pure(r) for r in it.elts):
+                return None
+            cells = list(it.elts)
+        # a dispatch table: some cell refers to a method of the class
+        if not any(isinstance(e, ast.Attribute) and isinstance(e.value, ast.Name) and e.value.id == "self" and e.attr in methods for e in cells):
+            return None
+        names = {t.id for t in (loop.target.elts if isinstance(loop.target, ast.Tuple) else [loop.target])}
+        for b in loop.body:
+            for n in ast.walk(b):
+                if isinstance(n, (ast.Break, ast.Continue)):
+                    return None
+                if isinstance(n, ast.Name) and n.id in names and isinstance(n.ctx, (ast.Store, ast.Del)):
+                    return None
+        return list(it.elts)
+
+    def run(self) -> int:
+        for st in self.tree.body:
+            if isinstance(st, ast.ClassDef):
+                tables = self._class_tables(st)
+                methods = {m.name for m in st.body if isinstance(m, ast.FunctionDef)}
+                for m in st.body:
+                    if isinstance(m, ast.FunctionDef):
+                        m.body = self.block(m.body, tables, st.name, methods)
+                        for b in m.body:
+                            ast.fix_missing_locations(b)
+        return self.count
